@@ -110,34 +110,36 @@ def H4.shiftWhile (p : Params) : Nat → H4 → H4
   | 0, h => h
   | fuel + 1, h => if h.numAtCurMin = 0 then H4.shiftWhile p fuel (h.shift p) else h
 
+/-- actual old value of a slot (`none`: AUX_TOKEN without an aux entry -> the code throws) -/
+def H4.actualOld (p : Params) (h : H4) (slot raw : Nat) : Option Nat :=
+  if raw < p.auxToken then some (raw + h.curMin) else h.aux.bind (·.find slot)
+
+/-- cases 1-4 of `internalHll4Update`: store the new, bigger value (curMin / numAtCurMin handled by the caller) -/
+def H4.store (p : Params) (h : H4) (slot nv raw : Nat) : H4 :=
+  let shifted := nv - h.curMin
+  if raw = p.auxToken then
+    if shifted ≥ p.auxToken then                       -- case 1: exception stays an exception
+      match h.aux.bind (·.replace slot nv) with
+      | some a => { h with aux := some a }
+      | none => { h with bad := true }
+    else h                                              -- case 2: impossible
+  else if shifted ≥ p.auxToken then                    -- case 3: new exception
+    match (h.aux.getD (newAux p h.lgK)).add p slot nv with
+    | some a => { h with bytes := putNib h.bytes slot p.auxToken, aux := some a }
+    | none => { h with bytes := putNib h.bytes slot p.auxToken, bad := true }
+  else { h with bytes := putNib h.bytes slot shifted } -- case 4
+
 /-- `Hll4Array::internalHll4Update(slotNo, newVal)` -/
 def H4.update4 (p : Params) (h : H4) (slot nv : Nat) : H4 :=
   let raw := getNib h.bytes slot
-  let lb := raw + h.curMin
-  if nv > lb then
-    let (actualOld, bad) :=
-      if raw < p.auxToken then (lb, h.bad)
-      else match h.aux.bind (·.find slot) with
-        | some v => (v, h.bad)
-        | none => (0, true)
-    if nv > actualOld then
-      let shifted := nv - h.curMin
-      let h1 : H4 :=
-        if raw = p.auxToken then
-          if shifted ≥ p.auxToken then
-            match h.aux.bind (·.replace slot nv) with
-            | some a => { h with aux := some a, bad := bad }
-            | none => { h with bad := true }
-          else { h with bad := bad }
-        else if shifted ≥ p.auxToken then
-          match (h.aux.getD (newAux p h.lgK)).add p slot nv with
-          | some a => { h with bytes := putNib h.bytes slot p.auxToken, aux := some a, bad := bad }
-          | none => { h with bytes := putNib h.bytes slot p.auxToken, bad := true }
-        else { h with bytes := putNib h.bytes slot shifted, bad := bad }
-      if actualOld = h.curMin then
-        H4.shiftWhile p 64 { h1 with numAtCurMin := h1.numAtCurMin - 1 }
-      else h1
-    else { h with bad := bad }
+  if nv > raw + h.curMin then
+    match H4.actualOld p h slot raw with
+    | none => { h with bad := true }
+    | some old =>
+      if nv > old then
+        let h1 := H4.store p h slot nv raw
+        if old = h.curMin then H4.shiftWhile p 64 { h1 with numAtCurMin := h1.numAtCurMin - 1 } else h1
+      else h
   else h
 
 /-- `Hll4Array::internalCouponUpdate` -/
